@@ -68,6 +68,11 @@ def exec_RD(t):
         if fn == 'transpose' and axis in ('id', 'sw'):
             nd = 2 if r else 1
             kw['axes'] = tuple(range(nd)) if axis == 'id' else tuple(reversed(range(nd)))
+        elif fn in ('diagonal', 'trace') and axis[0] in 'ow':
+            # another diagonal: offset k, with the two axes in their default order ("o") or the other way round ("w")
+            kw['offset'] = int(axis[1:])
+            if axis[0] == 'w':
+                kw['axis1'], kw['axis2'] = (1, 0) if (r + c + kw['offset']) % 2 else (-1, -2)
         elif axis == 'N' and fn not in ('transpose', 'diagonal', 'trace'):
             kw['axis'] = None             # passed explicitly (for sort this is not the default)
         elif axis != 'n' and fn not in ('transpose', 'diagonal', 'trace'):
@@ -198,6 +203,16 @@ def generate(tier, rng):
         axis = rng.choice(['n', 'N', '0', '-1'] + (['1', '-2'] if two else []))
         if fn in ('transpose', 'diagonal', 'trace'):
             axis = rng.choice(['n', 'id', 'sw']) if fn == 'transpose' else 'n'
+            if fn != 'transpose' and r and rng.random() < 0.6:
+                # a diagonal other than the main one, axes in either order; never an empty one
+                if rng.random() < 0.5:
+                    ks = [k for k in range(-(r - 1), c) if k != 0]
+                    if ks:
+                        axis = 'o%d' % rng.choice(ks)
+                else:
+                    ks = [k for k in range(-(c - 1), r)]
+                    if ks:
+                        axis = 'w%d' % rng.choice(ks)
         route = rng.choice(['numpy', 'method'])
         if axis == 'N' and fn == 'sort':
             route = 'numpy'               # the in-place method cannot flatten
